@@ -52,8 +52,10 @@ Record cmdspec := {
   c_stdout : bytes;      (* bytes it writes to its standard output when it starts *)
   c_echo : bool;         (* copies its standard input to its standard output (cat) *)
   c_drain : bool;        (* reads its standard input to EOF (else writing to it may hit EPIPE) *)
+  c_closes : bool;       (* does not drain: closes its standard input first of all, before it creates c_sink
+                            (exec 0<&-; : > marker; ...) -- once the marker exists a write to it gets EPIPE *)
   c_exit : wstatus       (* how it ends, after its standard input reaches EOF *)
-}.                       (* its standard input is always appended to c_sink, if any *)
+}.                       (* if it drains, its standard input is appended to c_sink, if any *)
 
 (* iostream.go waitExitCode, with os/exec Cmd.Wait: an error of the copying
    goroutine is reported only if the process itself exited with status 0 *)
@@ -154,7 +156,8 @@ Record ostream := {
   os_off : option nat;  (* KFile opened with > : the descriptor's file offset (None: O_APPEND / pipe) *)
   os_buf : bytes;
   os_cgfail : bool;   (* KCmd: the goroutine copying the child's stdout has stopped with an error *)
-  os_active : bool    (* KCmd: the child has been given something to write to the shared stdout *)
+  os_active : bool;   (* KCmd: the child has been given something to write to the shared stdout *)
+  os_err : bool       (* KCmd: the stream's bufio.Writer has met a write error (EPIPE); sticky *)
 }.
 Record istream := { is_cmd : bool; is_rest : bytes }.
 
@@ -183,39 +186,43 @@ Record state := {
   st_log : list event;                  (* ghost *)
   st_obs : list obs;                    (* values the program saw (newest first) *)
   st_overlap : bool;                    (* ghost: goawk touched Output while a child's copying goroutine could too *)
-  st_unmod : bool                       (* the outcome depends on timing the model does not decide *)
+  st_unmod : bool;                      (* the outcome depends on timing the model does not decide *)
+  st_synced : list name                 (* files the program has waited for (AwaitFile) and seen to exist *)
 }.
 
 Definition init_state (fs : list (name * bytes)) (limit : option nat) : state :=
   {| st_out := {| bw_buf := []; bw_err := false |};
      st_sink := {| sk_data := []; sk_limit := limit |};
      st_outs := []; st_ins := []; st_fs := fs; st_log := []; st_obs := [];
-     st_overlap := false; st_unmod := false |}.
+     st_overlap := false; st_unmod := false; st_synced := [] |}.
 
 Definition set_out (s : state) (w : bw) (k : sink) : state :=
   {| st_out := w; st_sink := k; st_outs := st_outs s; st_ins := st_ins s; st_fs := st_fs s;
-     st_log := st_log s; st_obs := st_obs s; st_overlap := st_overlap s; st_unmod := st_unmod s |}.
+     st_log := st_log s; st_obs := st_obs s; st_overlap := st_overlap s; st_unmod := st_unmod s; st_synced := st_synced s |}.
 Definition set_outs (s : state) (o : list (name * ostream)) : state :=
   {| st_out := st_out s; st_sink := st_sink s; st_outs := o; st_ins := st_ins s; st_fs := st_fs s;
-     st_log := st_log s; st_obs := st_obs s; st_overlap := st_overlap s; st_unmod := st_unmod s |}.
+     st_log := st_log s; st_obs := st_obs s; st_overlap := st_overlap s; st_unmod := st_unmod s; st_synced := st_synced s |}.
 Definition set_ins (s : state) (i : list (name * istream)) : state :=
   {| st_out := st_out s; st_sink := st_sink s; st_outs := st_outs s; st_ins := i; st_fs := st_fs s;
-     st_log := st_log s; st_obs := st_obs s; st_overlap := st_overlap s; st_unmod := st_unmod s |}.
+     st_log := st_log s; st_obs := st_obs s; st_overlap := st_overlap s; st_unmod := st_unmod s; st_synced := st_synced s |}.
 Definition set_fs (s : state) (fs : list (name * bytes)) : state :=
   {| st_out := st_out s; st_sink := st_sink s; st_outs := st_outs s; st_ins := st_ins s; st_fs := fs;
-     st_log := st_log s; st_obs := st_obs s; st_overlap := st_overlap s; st_unmod := st_unmod s |}.
+     st_log := st_log s; st_obs := st_obs s; st_overlap := st_overlap s; st_unmod := st_unmod s; st_synced := st_synced s |}.
 Definition add_log (s : state) (e : event) : state :=
   {| st_out := st_out s; st_sink := st_sink s; st_outs := st_outs s; st_ins := st_ins s; st_fs := st_fs s;
-     st_log := e :: st_log s; st_obs := st_obs s; st_overlap := st_overlap s; st_unmod := st_unmod s |}.
+     st_log := e :: st_log s; st_obs := st_obs s; st_overlap := st_overlap s; st_unmod := st_unmod s; st_synced := st_synced s |}.
 Definition add_obs (s : state) (o : obs) : state :=
   {| st_out := st_out s; st_sink := st_sink s; st_outs := st_outs s; st_ins := st_ins s; st_fs := st_fs s;
-     st_log := st_log s; st_obs := o :: st_obs s; st_overlap := st_overlap s; st_unmod := st_unmod s |}.
+     st_log := st_log s; st_obs := o :: st_obs s; st_overlap := st_overlap s; st_unmod := st_unmod s; st_synced := st_synced s |}.
 Definition set_overlap (s : state) : state :=
   {| st_out := st_out s; st_sink := st_sink s; st_outs := st_outs s; st_ins := st_ins s; st_fs := st_fs s;
-     st_log := st_log s; st_obs := st_obs s; st_overlap := true; st_unmod := st_unmod s |}.
+     st_log := st_log s; st_obs := st_obs s; st_overlap := true; st_unmod := st_unmod s; st_synced := st_synced s |}.
+Definition add_synced (s : state) (n : name) : state :=
+  {| st_out := st_out s; st_sink := st_sink s; st_outs := st_outs s; st_ins := st_ins s; st_fs := st_fs s;
+     st_log := st_log s; st_obs := st_obs s; st_overlap := st_overlap s; st_unmod := st_unmod s; st_synced := n :: st_synced s |}.
 Definition set_unmod (s : state) : state :=
   {| st_out := st_out s; st_sink := st_sink s; st_outs := st_outs s; st_ins := st_ins s; st_fs := st_fs s;
-     st_log := st_log s; st_obs := st_obs s; st_overlap := st_overlap s; st_unmod := true |}.
+     st_log := st_log s; st_obs := st_obs s; st_overlap := st_overlap s; st_unmod := true; st_synced := st_synced s |}.
 
 (* ---- goawk's own accesses to p.output ---- *)
 
@@ -337,8 +344,19 @@ Definition start_proc (E : env) (s : state) (c : name) : state * bool :=
 
 (* ---- file and command streams ---- *)
 
+(* the file a command's standard input ends up in (none if it does not read it) *)
+Definition cmd_target (E : env) (c : name) : option name :=
+  if c_drain (e_spec E c) then c_sink (e_spec E c) else None.
+
 Definition stream_target (E : env) (n : name) (o : ostream) : option name :=
-  match os_kind o with KFile => Some n | KCmd => c_sink (e_spec E n) end.
+  match os_kind o with KFile => Some n | KCmd => cmd_target E n end.
+
+(* the program has waited for the marker of command c: c has closed its standard input *)
+Definition is_synced (E : env) (s : state) (c : name) : bool :=
+  match c_sink (e_spec E c) with
+  | Some m => existsb (Z.eqb m) (st_synced s)
+  | None => false
+  end.
 
 (* [data] leaves the stream's buffer: into the file, or into the child, which
    appends it to its sink and, if it echoes, writes it to the shared stdout *)
@@ -352,40 +370,60 @@ Definition deliver (E : env) (s : state) (n : name) (o : ostream) (data : bytes)
           | Some off =>
               (set_fs s (aset n (write_at off (fs_get (st_fs s) n) data) (st_fs s)),
                {| os_kind := KFile; os_off := Some (off + length data)%nat; os_buf := os_buf o;
-                  os_cgfail := os_cgfail o; os_active := os_active o |})
+                  os_cgfail := os_cgfail o; os_active := os_active o; os_err := os_err o |})
           | None => (set_fs s (fs_append (st_fs s) n data), o)
           end
       | KCmd =>
-          let s := match c_sink (e_spec E n) with
-                   | Some t => set_fs s (fs_append (st_fs s) t data)
-                   | None => s
-                   end in
-          if c_echo (e_spec E n) then
-            match child_out E s (os_cgfail o) data with
-            | (s', ok) => (s', {| os_kind := KCmd; os_off := None; os_buf := os_buf o; os_cgfail := negb ok; os_active := true |})
-            end
-          else (s, o)
+          if c_drain (e_spec E n) then
+            let s := match c_sink (e_spec E n) with
+                     | Some t => set_fs s (fs_append (st_fs s) t data)
+                     | None => s
+                     end in
+            if c_echo (e_spec E n) then
+              match child_out E s (os_cgfail o) data with
+              | (s', ok) => (s', {| os_kind := KCmd; os_off := None; os_buf := os_buf o; os_cgfail := negb ok;
+                                    os_active := true; os_err := os_err o |})
+              end
+            else (s, o)
+          else
+            (* the child does not read: the write into the pipe fails with EPIPE -- for certain
+               only once the child is known to have closed its standard input *)
+            (if is_synced E s n then s else set_unmod s,
+             {| os_kind := KCmd; os_off := None; os_buf := os_buf o; os_cgfail := os_cgfail o;
+                os_active := os_active o; os_err := true |})
       end
   end.
 
 (* outFileStream/outCmdStream Flush *)
 Definition flush_ostream (E : env) (s : state) (n : name) (o : ostream) : state * ostream :=
   match deliver E s n o (os_buf o) with
-  | (s', o') => (s', {| os_kind := os_kind o'; os_off := os_off o'; os_buf := []; os_cgfail := os_cgfail o'; os_active := os_active o' |})
+  | (s', o') => (s', {| os_kind := os_kind o'; os_off := os_off o'; os_buf := []; os_cgfail := os_cgfail o';
+                        os_active := os_active o'; os_err := os_err o' |})
   end.
 
-(* io.WriteString on the stream's bufio.Writer *)
+(* io.WriteString on the stream's bufio.Writer.  (A writer in error state takes nothing and
+   reports its error -- see step; here the bytes stay in a buffer that can only be dropped.) *)
 Definition write_ostream (E : env) (s : state) (n : name) (o : ostream) (p : bytes) : state * ostream :=
   match buf_bytes (e_fcap E) (os_buf o) p with
   | (flushed, buf') =>
       match deliver E s n o flushed with
-      | (s', o') => (s', {| os_kind := os_kind o'; os_off := os_off o'; os_buf := buf'; os_cgfail := os_cgfail o'; os_active := os_active o' |})
+      | (s', o') => (s', {| os_kind := os_kind o'; os_off := os_off o'; os_buf := buf'; os_cgfail := os_cgfail o';
+                            os_active := os_active o'; os_err := os_err o' |})
       end
   end.
 
-(* io.go flushStream (for a name that is in p.outputStreams) *)
+(* io.go flushWriter on a stream that is in p.outputStreams: Flush; an error is logged (printErrorf) *)
 Definition flush_named (E : env) (s : state) (n : name) (o : ostream) : state :=
-  match flush_ostream E s n o with (s', o') => set_outs s' (aset n o' (st_outs s')) end.
+  match flush_ostream E s n o with
+  | (s', o') =>
+      let s2 := set_outs s' (aset n o' (st_outs s')) in
+      if os_err o' then print_errorf E s2 else s2
+  end.
+
+(* did the Flush of stream n report an error? (the error of a bufio.Writer is sticky) *)
+Definition stream_failed (s : state) (n : name) : bool :=
+  match alookup n (st_outs s) with Some o => os_err o | None => false end.
+Definition any_failed (o : list (name * ostream)) : bool := existsb (fun e => os_err (snd e)) o.
 
 (* io.go flushAll: every output stream, then stdout (flushWriter logs a failure) *)
 Fixpoint flush_streams (E : env) (s : state) (names : list name) : state :=
@@ -400,7 +438,7 @@ Fixpoint flush_streams (E : env) (s : state) (names : list name) : state :=
 Definition flush_all (E : env) (s : state) : state * bool :=
   let s := flush_streams E s (map fst (st_outs s)) in
   match flush_stdout E s with
-  | (s', true) => (s', true)
+  | (s', true) => (s', negb (any_failed (st_outs s')))
   | (s', false) => (print_errorf E s', false)
   end.
 
@@ -413,7 +451,8 @@ Definition close_ostream (E : env) (s : state) (n : name) (o : ostream) : state 
       | KCmd =>
           match child_eof E s1 (os_cgfail o1) with
           | (s2, ok) =>
-              match wait_result (c_exit (e_spec E n)) (negb ok) with (code, err) => (s2, code, err) end
+              (* the exit status comes from Wait whatever Flush said; firstError(waitErr, flushErr, closeErr) *)
+              match wait_result (c_exit (e_spec E n)) (negb ok) with (code, err) => (s2, code, err || os_err o1) end
           end
       end
   end.
@@ -453,7 +492,8 @@ Inductive op :=
 | GetlineCmd (c : name)                   (* c | getline line *)
 | GetlineStdin                            (* getline line   (stdin is empty) *)
 | Exit (code : Z)
-| RuntimeError.                           (* any other failing statement, e.g. 1/0 *)
+| RuntimeError                            (* any other failing statement, e.g. 1/0 *)
+| AwaitFile (n : name).                   (* do r = (getline line < n) while (r < 0): wait until file n exists *)
 
 Inductive outcome := Running | Halt (code : Z) | Fail.
 
@@ -479,10 +519,13 @@ Definition get_output_stream (E : env) (s : state) (d : dest) : state * option w
               let trunc := match r with RTrunc => true | _ => false end in
               let fs' := if trunc then aset n [] (st_fs s) else fs_append (st_fs s) n [] in
               let s := add_log (set_fs s fs') (EvOpen n KFile trunc) in
-              (set_outs s (aset n {| os_kind := KFile; os_off := (if trunc then Some 0%nat else None); os_buf := []; os_cgfail := false; os_active := false |} (st_outs s)),
+              (set_outs s (aset n {| os_kind := KFile; os_off := (if trunc then Some 0%nat else None); os_buf := []; os_cgfail := false; os_active := false; os_err := false |} (st_outs s)),
                Some (TStream n))
         | RPipe =>
-            let s := if (echo_capable E n && open_echo_cmd E (st_outs s)) || negb (c_drain (e_spec E n))
+            let s := if (echo_capable E n && open_echo_cmd E (st_outs s))
+                        || (negb (c_drain (e_spec E n)) && negb (c_closes (e_spec E n)))
+                        || (negb (c_drain (e_spec E n)) && c_closes (e_spec E n) &&
+                            match c_sink (e_spec E n) with Some m => amem m (st_fs s) | None => true end)
                      then set_unmod s else s in
             let s := add_log s (EvOpen n KCmd false) in
             match start_proc E s n with
@@ -491,7 +534,7 @@ Definition get_output_stream (E : env) (s : state) (d : dest) : state * option w
                 | (s2, ok) =>
                     let act := negb (match c_stdout (e_spec E n) with [] => true | _ => false end) in
                     let s2 := if act && any_active (st_outs s2) then set_unmod s2 else s2 in
-                    (set_outs s2 (aset n {| os_kind := KCmd; os_off := None; os_buf := []; os_cgfail := negb ok; os_active := act |} (st_outs s2)),
+                    (set_outs s2 (aset n {| os_kind := KCmd; os_off := None; os_buf := []; os_cgfail := negb ok; os_active := act; os_err := false |} (st_outs s2)),
                      Some (TStream n))
                 end
             end
@@ -521,6 +564,33 @@ Definition scan_stream (s : state) (n : name) (i : istream) : state :=
       end
   end.
 
+(* a file some live command is (or may be) writing to: what a read returns is a
+   matter of timing -- unless it is the marker of a command that writes nothing
+   else to it and the program has waited for it *)
+Definition sink_busy (E : env) (s : state) (n : name) : bool :=
+  existsb (fun e => match os_kind (snd e) with
+                    | KCmd => match c_sink (e_spec E (fst e)) with
+                              | Some m => (m =? n) && (c_drain (e_spec E (fst e)) || negb (existsb (Z.eqb n) (st_synced s)))
+                              | None => false
+                              end
+                    | KFile => false
+                    end) (st_outs s).
+
+(* vm.go getline, redirect LESS *)
+Definition getline_file (E : env) (s : state) (n : name) : state * outcome :=
+  let s := if sink_busy E s n then set_unmod s else s in
+  if amem n (st_outs s) then (s, Fail)                 (* can't read from writer stream *)
+  else match alookup n (st_ins s) with
+       | Some i => (scan_stream s n i, Running)
+       | None =>
+           match alookup n (st_fs s) with
+           | None => (add_obs s (ORet (-1)), Running)  (* fs.ErrNotExist *)
+           | Some content =>
+               let i := {| is_cmd := false; is_rest := content |} in
+               (scan_stream (set_ins s (aset n i (st_ins s))) n i, Running)
+           end
+       end.
+
 (* close(cmd) of a command that exits 0 returns -1 instead of 0 iff the
    goroutine copying its stdout met a write error.  That goroutine checks the
    writer's error when it starts running and flushes a full buffer when the
@@ -549,7 +619,7 @@ Definition step (E : env) (s : state) (o : op) : state * outcome :=
           | Some os =>
               let s1 := add_log s1 (EvWrite (match os_kind os with KFile => WFile n | KCmd => WCmd n end) (concat ps)) in
               match write_ostream E s1 n os (concat ps) with
-              | (s2, os') => (set_outs s2 (aset n os' (st_outs s2)), Running)
+              | (s2, os') => (set_outs s2 (aset n os' (st_outs s2)), if os_err os' then Fail else Running)
               end
           | None => (s1, Fail) (* unreachable: get_output_stream returned an open stream *)
           end
@@ -578,7 +648,9 @@ Definition step (E : env) (s : state) (o : op) : state * outcome :=
       end
   | Fflush (Some n) =>
       match alookup n (st_outs s) with
-      | Some os => (add_obs (flush_named E s n os) (ORet 0), Running)
+      | Some os =>
+          let s1 := flush_named E s n os in
+          (add_obs s1 (ORet (if stream_failed s1 n then -1 else 0)), Running)
       | None => (add_obs (print_errorf E s) (ORet (-1)), Running)
       end
   | Fflush None =>
@@ -603,18 +675,7 @@ Definition step (E : env) (s : state) (o : op) : state * outcome :=
               end
           end
       end
-  | GetlineFile n =>
-      if amem n (st_outs s) then (s, Fail)                 (* can't read from writer stream *)
-      else match alookup n (st_ins s) with
-           | Some i => (scan_stream s n i, Running)
-           | None =>
-               match alookup n (st_fs s) with
-               | None => (add_obs s (ORet (-1)), Running)  (* fs.ErrNotExist *)
-               | Some content =>
-                   let i := {| is_cmd := false; is_rest := content |} in
-                   (scan_stream (set_ins s (aset n i (st_ins s))) n i, Running)
-               end
-           end
+  | GetlineFile n => getline_file E s n
   | GetlineCmd c =>
       if amem c (st_outs s) then (s, Fail)
       else match alookup c (st_ins s) with
@@ -630,6 +691,10 @@ Definition step (E : env) (s : state) (o : op) : state * outcome :=
   | GetlineStdin => (add_obs (flush_out_err E s) (ORet 0), Running)
   | Exit code => (s, Halt code)
   | RuntimeError => (s, Fail)
+  | AwaitFile n =>
+      if amem n (st_outs s) then (s, Fail)
+      else if negb (amem n (st_ins s)) && negb (amem n (st_fs s)) then (set_unmod s, Running)  (* never returns *)
+      else getline_file E (add_synced s n) n
   end.
 
 Inductive result := RStatus (code : Z) | RError.
